@@ -139,8 +139,8 @@ PROPS = {
         trusted_base=["pkg/symbol/table.go, symbol.go and the Link/Unlink/close-hook behaviour of pkg/port transcribed by hand into theories/Table/Table.v (Go map iteration order fixed; observables compared as sets / per-symbol sequences)", COMMON_MODEL],
     ),
     "C07": dict(
-        level_text="Coq theorems. ACTIVE = CLOSURE PRESENT, over histories: along every history of Insert/Free/Close in which references carry an id or a name (not both), a name is used by one symbol of a namespace at a time, every inserted symbol is a new instance and the lifecycle flows succeed, the instances with a load notification and no later unload are, after every operation, exactly the present symbols whose whole reference closure is present, and nothing else; after Close no symbol is left and none is active. Ingredients, each a theorem for every table state: the activation test (isActivated: depth-first walk with a visited set; fuel shown sufficient) decides 'the reference closure is present'; the list a load/unload walks (Table.linked) holds exactly the symbols that reach the start symbol through the reference index, cycles included; the reference index is exactly the reverse of the resolved references (C06); a load (unload) whose flows succeed notifies exactly the walked symbols whose closure is present; adding a symbol completes exactly the closures of the symbols that reach it, removing it breaks exactly those; within one removal the unload notifications precede the node close. PARTIAL: strict load/unload ALTERNATION per instance (never two loads or two unloads in a row) is not a Coq theorem; it is evaluated after every operation of every generated history (shared targets, chains, cycles, dangling references, replacements) on the implementation by a Go oracle that recomputes the closure from the specs, and against the model (active sets and per-instance notification sequences must coincide).",
-        level_note="The history condition is computable (wf2_from_b) and every generated history of the correspondence run meets it; histories with two symbols of one name in a namespace, or references carrying both id and name, are outside the theorem (the implementation does not reject them). Alternation is compared, not proved. Trusted as C06.",
+        level_text="Coq theorems. ACTIVE = CLOSURE PRESENT, over histories: along every history of Insert/Free/Close in which references carry an id or a name (not both), a name is used by one symbol of a namespace at a time, every inserted symbol is a new instance and the lifecycle flows succeed, the instances with a load notification and no later unload are, after every operation, exactly the present symbols whose whole reference closure is present, and nothing else; after Close no symbol is left and none is active. Ingredients, each a theorem for every table state: the activation test (isActivated: depth-first walk with a visited set; fuel shown sufficient) decides 'the reference closure is present'; the list a load/unload walks (Table.linked) holds exactly the symbols that reach the start symbol through the reference index, cycles included; the reference index is exactly the reverse of the resolved references (C06); a load (unload) whose flows succeed notifies exactly the walked symbols whose closure is present; adding a symbol completes exactly the closures of the symbols that reach it, removing it breaks exactly those; within one removal the unload notifications precede the node close. ALTERNATION: along the same histories every load notification finds its instance inactive and every unload notification finds it active, so the notifications of an instance strictly alternate, starting with a load (the walk never lists a symbol twice, cycles included). Tied to pkg/symbol by correspondence: after every operation of every generated history (shared targets, chains, cycles, dangling references, replacements) active sets and per-instance notification sequences of a real Table must coincide with the model's, and a Go oracle recomputes the closure from the specs.",
+        level_note="The history condition is computable (wf2_from_b) and every generated history of the correspondence run meets it; histories with two symbols of one name in a namespace, references carrying both id and name, reused instances or failing lifecycle flows (C08) are outside the theorems (the implementation does not reject them). Proved about the hand-written model; trusted as C06.",
         technique="Coq proofs (invariant over histories: reference index exact, active set = closed symbols; DFS closure test; Kahn walk membership; exact notification set of one operation) + vm_compute correspondence + direct closure/alternation oracle",
         quick_n=300, thorough_n=8000, shard=20, mismatch_is_failure=True,
         assumptions=["one table operation at a time (C20)", "hooks succeed (failing lifecycle flows are C08)"],
